@@ -262,7 +262,7 @@ def configs(ctx: Check) -> list[dict]:
     ports = [(1, 1), (2, 2), (3, 1), (1, 3), (3, 3), (2, 1), (1, 2), (2, 3)]
     # every mode x (granular or not) x a spread of depths/ports
     modes = [(t, r) for t in (0, 1) for r in (0, 1)]
-    reps = ctx.pick(1, 5)
+    reps = ctx.pick(1, 3)
     for _ in range(reps):
         for t, r in modes:
             for gran in (0, 1):
@@ -321,7 +321,7 @@ def f5_witness() -> Case:
 def gen_cases(ctx: Check):
     rng = ctx.rng("gen")
     cases = []
-    cyc = ctx.pick(90, 1000)
+    cyc = ctx.pick(90, 800)
     f5_on = ctx.is_known({"component": "MemoryBank", "f5": True})
     for d in configs(ctx):
         cfg = _cfg(d)
